@@ -165,15 +165,45 @@ Theorem C04_iter_complete_refuted :
 Proof. exact iter_complete_refuted. Qed.
 Print Assumptions C04_iter_complete_refuted.
 
-(* next() raises nothing but ValueError for an invalid attribute name (IndexError only on
-   an empty process table, which no kernel has): vanished processes are skipped silently *)
+(* next() fails only because of its attrs argument -- TypeError (attrs is not a list / tuple / set /
+   frozenset: generator, iterator, dict, dict view), ValueError (invalid name), NotImplementedError (a
+   NON-EMPTY attrs names an attribute the running system does not implement: documented) -- or with
+   IndexError on an empty process table, which no kernel has; vanished processes are skipped silently *)
 Theorem C04_iter_exceptions : forall valid h g x,
   let sg := irun valid h in
   snd (step valid (fst sg) (IterNext g)) = OExc x ->
-  (x = ValueError /\ exists l, gh_attrs (snd sg g) = Some l /\ attrs_valid valid l = false)
+  (exists l, gh_attrs (snd sg g) = Some l /\
+     ((x = TypeError /\ zmem BADTYPE l = true)
+      \/ (x = ValueError /\ attrs_valid valid l = false)
+      \/ (x = NotImplementedError /\ explicit_ni l = true)))
   \/ (x = IndexError /\ tbl (fst sg) = []).
 Proof. exact iter_exceptions. Qed.
 Print Assumptions C04_iter_exceptions.
+
+(* attrs None, or an EMPTY collection ([], (), set(), frozenset(): "all attributes"): next() never fails,
+   whatever subset of psutil's attribute names ([valid] is arbitrary; codes >= 1000 = unimplemented on the
+   running system) is unimplemented -- so, with the completeness theorems, such a generator yields one
+   Process per listed PID; the info dict then holds exactly the implemented names (C04_iter_yields:
+   i = Some (spec_keys valid [])) *)
+Theorem C04_iter_all_attrs_never_raises : forall valid h g x,
+  let sg := irun valid h in
+  gh_attrs (snd sg g) = None \/ gh_attrs (snd sg g) = Some [] ->
+  snd (step valid (fst sg) (IterNext g)) = OExc x -> x = IndexError /\ tbl (fst sg) = [].
+Proof. exact iter_all_attrs_never_raises. Qed.
+Print Assumptions C04_iter_all_attrs_never_raises.
+
+Theorem C04_all_attrs_keys : forall valid,
+  spec_keys valid [] = zsort (filter (fun a => negb (unimpl a)) valid).
+Proof. exact spec_keys_all. Qed.
+Print Assumptions C04_all_attrs_keys.
+
+(* ... while a non-empty attrs naming an unimplemented attribute keeps raising for a process in the table *)
+Theorem C04_explicit_unimplemented_raises : forall t valid ru pid ob l k,
+  zmem BADTYPE l = false -> attrs_valid valid l = true -> explicit_ni l = true ->
+  zmem PPID (nodup Z.eq_dec l) = false -> find_proc t pid = Some k ->
+  fst (fst (as_dict t valid ru pid ob l)) = Exc NotImplementedError.
+Proof. exact as_dict_explicit_unimplemented. Qed.
+Print Assumptions C04_explicit_unimplemented_raises.
 
 (* ---- the cache ---- *)
 
@@ -375,7 +405,7 @@ Print Assumptions C04_uncached_fresh.
    NoSuchProcess (and the PID is dropped) iff ppid is requested and the object is not the process that has
    the PID now (gone flag, reused flag, or another start time) *)
 Theorem C04_ppid_drop_exact : forall t valid ru pid ob l k,
-  attrs_valid valid l = true -> find_proc t pid = Some k ->
+  zmem BADTYPE l = false -> attrs_valid valid l = true -> explicit_ni l = false -> find_proc t pid = Some k ->
   (fst (fst (as_dict t valid ru pid ob l)) = Exc NoSuchProcess <->
    req_ppid valid (Some l) = true /\ (o_gone ob = true \/ o_reused ob = true \/ k_start k <> o_start ob)).
 Proof. exact as_dict_nsp_exact. Qed.
